@@ -601,3 +601,25 @@ def first_diff(a: List[Any], b: List[Any]) -> Optional[int]:
     if len(a) != len(b):
         return builtins.min(len(a), len(b))
     return None
+
+
+def drop_stdlib_repolls(exp, got):
+    """Remove from the reference log end-detections of a source that had *already* signalled its end,
+    where asyncstdlib does not re-poll (3.12's batched after a short batch, a finished tee child
+    advanced again).  Not re-polling an exhausted source is neither reading ahead nor consuming more;
+    the opposite direction (asyncstdlib polling again) is still reported."""
+    out = []
+    ended = set()
+    j = 0
+    skipped = 0
+    for ev in exp:
+        if ev[0] == "end":
+            if ev[1] in ended and not (j < len(got) and got[j] == ev):
+                skipped += 1
+                continue
+            ended.add(ev[1])
+        out.append(ev)
+        j += 1
+    return out, skipped
+
+
